@@ -218,9 +218,9 @@ class CallMixin:
 
         outs = self.sub_explore(run, base.snapshot(), limit=128)
         if outs is None or not outs or any(o.status not in ("normal", "raise") for o in outs):
-            self.nomerge_calls.add(fi.qual)
-            self.memo.clear()
-            return None
+            # the decision replay and the memo of nested explorations rely on every path of the outermost
+            # exploration executing the same way: restart it with this callee inlined from the beginning
+            raise Restart(set(), calls={fi.qual})
         raising = [o for o in outs if o.status == "raise"]
         if raising:
             # exceptional exits: fork the caller on "some raising path is taken", join the rest
@@ -287,7 +287,10 @@ class CallMixin:
             else:
                 raise PathEnd("raise", ("TypeError", f"missing keyword {p.arg}"))
         if a.kwarg:
-            o = self.alloc("dict", True, self.fresh_name("kwargs"))
+            # a purely symbolic **mapping keeps its name, so that reads of its keys denote the same datum in the
+            # code and in a specification function evaluated on the same arguments
+            o = self.alloc("dict", True, star_kw.path if (star_kw is not None and not kwargs and isinstance(star_kw, Sym))
+                           else self.fresh_name("kwargs"))
             h = self.hobj(o)
             h.items.update(kwargs)
             if star_kw is not None:
@@ -765,7 +768,7 @@ class CallMixin:
                 if isinstance(f, Fn) and f.kind == "builtin" and f.target == "str":
                     lid = self.new_lid()
                     elem, lid = self.elem_of(p)
-                    out.append(MapPart((p,), elem, ((TRUE, (self.to_shape(elem),)),), lid))
+                    out.append(MapPart((p,), elem, ((TRUE, (self.to_shape(elem),)),), lid, False, True))
                 else:
                     raise Unsupported("map over symbolic sequence")
         return Tu(self.norm_parts(out))
